@@ -48,6 +48,12 @@ def afterKeys (p : Probe) (rs : List Req) : List Hash :=
 def shardsOf (inp : Input) (ob : Obs) : List (Nat × Probe × List Req) :=
   (inp.probes.zip ob.reqs).zipIdx.map fun ((p, r), i) => (i, p, r)
 
+/-- the request sequence of a cycle that leaves a shard alone: the two reads and the extra-config
+    push (an empty shard is additionally sent its empty assignment every cycle) -/
+def quietReqs (reported : AL St) : List Req :=
+  if reported.isEmpty then [.getStatus, .getRuntime, .postTargets [], .postExtra]
+  else [.getStatus, .getRuntime, .postExtra]
+
 /-! ### C01 -/
 
 namespace C01
